@@ -40,7 +40,7 @@ var dims = []dim{
 	{"hooks", []string{"nil", "existing"}},
 	{"env", []string{"none", "new", "override", "repeated", "override+repeated+new"}},
 	{"devnodes", []string{"none", "char-unspecified", "char-specified", "block-unspecified", "fifo-unspecified", "fifo-specified", "block-type-only",
-		"char-full-attrs", "char-uid0", "replace-existing", "same-path-twice", "same-path-twice-different-type", "replace+new", "no-hostpath-specified", "char-perm-r", "major-only"}},
+		"char-full-attrs", "char-uid0", "replace-existing", "same-path-twice", "same-path-twice-different-type", "replace+new", "no-hostpath-specified", "char-perm-r", "major-only", "only-uid-set", "only-gid-set", "uid-set-gid-zero"}},
 	{"edit-mounts", []string{"none", "new", "replace-existing", "same-dest-twice", "deep-then-shallow", "non-clean-dest", "replace+siblings"}},
 	{"edit-hooks", []string{"none", "prestart", "createRuntime", "createContainer", "startContainer", "poststart", "poststop", "two-in-one-stage", "one-per-stage"}},
 	{"gids", []string{"none", "zero-only", "dup-5-5", "new-9-11", "zero-9-zero-7"}},
@@ -144,6 +144,12 @@ func buildEdits(c Case) *specs.ContainerEdits {
 		e.DeviceNodes = []*specs.DeviceNode{{Path: ch}} // container path = host path
 	case "char-perm-r":
 		e.DeviceNodes = []*specs.DeviceNode{{Path: "/dev/ctr0", HostPath: ch, Permissions: "r"}, {Path: "/dev/ctr1", HostPath: bl, Permissions: "wm"}}
+	case "only-uid-set":
+		e.DeviceNodes = []*specs.DeviceNode{{Path: "/dev/ctr0", HostPath: ch, UID: u32(42)}}
+	case "only-gid-set":
+		e.DeviceNodes = []*specs.DeviceNode{{Path: "/dev/ctr0", HostPath: bl, GID: u32(43)}, {Path: "/dev/ctr1", HostPath: ch}}
+	case "uid-set-gid-zero":
+		e.DeviceNodes = []*specs.DeviceNode{{Path: "/dev/ctr0", HostPath: ch, UID: u32(7), GID: u32(0)}, {Path: "/dev/ctr1", HostPath: ch2, UID: u32(0)}}
 	case "major-only":
 		e.DeviceNodes = []*specs.DeviceNode{{Path: "/dev/ctr0", HostPath: ch, Major: 99, Minor: 98}} // type from host, numbers as given
 	}
